@@ -484,6 +484,89 @@ theorem forged_b2_history_no_trace (kcs : List (Option (List Nat))) : ∀ s : Re
     · rfl
     · exact ih s x hx
 
+theorem srvUpdate_cases {s s1 : ReplayB2.Srv} {w : List Nat} {b : Bool} (h : ReplayB2.srvUpdate s w = some (s1, b)) :
+    s1.r2 = s.r2 ∧ (b = false → ReplayB2.findExact s.ctxs w ≠ none ∧ s1 = { s with step := 0 }) := by
+  unfold ReplayB2.srvUpdate at h
+  cases hf : ReplayB2.findExact s.ctxs w with
+  | some i =>
+    rw [hf] at h
+    simp only [Option.some.injEq, Prod.mk.injEq] at h
+    obtain ⟨h1, h2⟩ := h
+    subst h1
+    exact ⟨rfl, fun _ => ⟨by simp, rfl⟩⟩
+  | none =>
+    rw [hf] at h
+    dsimp only at h
+    split at h
+    · split at h
+      · cases h
+      · split at h
+        · cases h
+        · split at h
+          · simp only [Option.some.injEq, Prod.mk.injEq] at h
+            obtain ⟨h1, h2⟩ := h
+            subst h1; subst h2
+            exact ⟨rfl, fun hb => by cases hb⟩
+          · simp only [Option.some.injEq, Prod.mk.injEq] at h
+            obtain ⟨h1, h2⟩ := h
+            subst h1; subst h2
+            exact ⟨rfl, fun hb => by cases hb⟩
+    · cases h
+
+/-- **Server side: a forged Appendix B.2 request leaves the context untouched.**  For every state of the server (any step,
+`oscore_r2` set or not, any set of security contexts) and every kid context field: a request that does not verify is
+answered 4.01 / 4.00 and `b_2_step`, `oscore_r2` and the security contexts (their number, the ID Context of each) are
+exactly as before — no context is left behind at step 2, the ID Context of the exchange is not replaced at step 4.
+Hypothesis: the kid context field is not literally the ID Context of an existing context, or no exchange is under way
+(such a request takes the ordinary path, which ends the exchange: `b_2_step = NONE` — "server finished" — before the
+verification; the genuine request #2 sets it again). -/
+theorem forged_b2_request_no_trace (s : ReplayB2.Srv) (w : List Nat)
+    (h : ReplayB2.findExact s.ctxs w = none ∨ s.step = 0) :
+    (ReplayB2.recvForgedReq s w).1 = s ∧ (ReplayB2.recvForgedReq s w).2 ≠ .acc := by
+  unfold ReplayB2.recvForgedReq
+  cases hu : ReplayB2.srvUpdate s w with
+  | none => exact ⟨rfl, by simp⟩
+  | some x =>
+    obtain ⟨s1, b⟩ := x
+    obtain ⟨hr, hb⟩ := srvUpdate_cases hu
+    cases b with
+    | true =>
+      refine ⟨?_, by simp⟩
+      simp only [if_true]
+      cases s1; cases s
+      simp only at hr
+      simp [hr]
+    | false =>
+      refine ⟨?_, by simp⟩
+      obtain ⟨hne, hs1⟩ := hb rfl
+      simp only [Bool.false_eq_true, if_false]
+      rcases h with h | h
+      · exact absurd h hne
+      · rw [hs1]; cases s; simp only at h; simp [h]
+
+/-- any number of forged requests in any order: the server never moves -/
+theorem forged_b2_requests_no_trace (ws : List (List Nat)) : ∀ s : ReplayB2.Srv,
+    (∀ w ∈ ws, ReplayB2.findExact s.ctxs w = none ∨ s.step = 0) → ∀ x ∈ ReplayB2.runSrv s ws, x.2 = s := by
+  induction ws with
+  | nil => intro s _ x hx; cases hx
+  | cons w r ih =>
+    intro s h x hx
+    have h1 := (forged_b2_request_no_trace s w (h w List.mem_cons_self)).1
+    simp only [ReplayB2.runSrv, List.mem_cons] at hx
+    rw [h1] at hx
+    rcases hx with rfl | hx
+    · rfl
+    · exact ih s (fun w' hw' => h w' (List.mem_cons_of_mem _ hw')) x hx
+
+-- the server defect: before the fix every forged request #1 left a security context behind (step 2), and during an
+-- exchange (R2 = 01 … 08 handed out) one forged request replaced the ID Context R2 || ID1 (step 4)
+example : ReplayB2.recvForgedReqUnpatched ⟨0, none, [none]⟩ [0x42, 0xc0, 0xc1] = ⟨2, none, [none, some [0xc0, 0xc1]]⟩ := by decide
+example : ReplayB2.recvForgedReqUnpatched ⟨0, some [1, 2, 3, 4, 5, 6, 7, 8], [some [1, 2, 3, 4, 5, 6, 7, 8, 0x11]]⟩ [0x41, 0xc0] =
+    ⟨4, some [1, 2, 3, 4, 5, 6, 7, 8], [some [0xc0]]⟩ := by decide
+example : ReplayB2.recvForgedReq ⟨0, none, [none]⟩ [0x42, 0xc0, 0xc1] = (⟨0, none, [none]⟩, .rej400) ∧
+    ReplayB2.recvForgedReq ⟨0, none, [none]⟩ [0x5f, 1] = (⟨0, none, [none]⟩, .rej401) ∧
+    ReplayB2.findExact [none] [0x42, 0xc0, 0xc1] = none := by decide
+
 -- the defect: what the code did before the fix with ONE forged response carrying the kid context c0 … c7 (ID1 =
 -- 11 22 … 88): ID Context c0 … c7 11 … 88, step 3 — and the next one prepends again
 example : ReplayB2.recvForgedUnpatched ⟨1, [0x11, 0x22, 0x33, 0x44, 0x55, 0x66, 0x77, 0x88]⟩
